@@ -19,6 +19,8 @@ import (
 	"sort"
 	"strconv"
 	"strings"
+	"sync"
+	"sync/atomic"
 	"testing"
 	"time"
 
@@ -200,6 +202,13 @@ func (e *caseEnv) req(method, pathQuery string, body []byte, ctype string) (*htt
 		e.violate("%s %s: reading the body failed: %v (declared Content-Length %d, got %d bytes)", method, trimQ(pathQuery), err, res.ContentLength, len(b))
 	}
 	return res, b
+}
+
+func nzs(s string) string {
+	if s == "" {
+		return "absent"
+	}
+	return s
 }
 
 func trimQ(s string) string {
@@ -522,6 +531,7 @@ func (e *caseEnv) rawStat() {
 		fmt.Fprintf(&sb, "&blob%d=%s", i+1, r)
 	}
 	e.logf("raw %s camli/stat keys=%d present=%d maxwaitsec=%q", method, n, present, mw)
+	evid.R.Label(fmt.Sprintf("stat/%s-keys-%d", method, n))
 	if present > 0 && present < len(refs) {
 		e.mixed = true
 	}
@@ -567,13 +577,24 @@ func (e *caseEnv) clientStat() {
 	}
 	got := map[string]int{}
 	dups := false
+	var mu sync.Mutex
+	var inFlight, concurrent atomic.Int32
 	err := e.cl.StatBlobs(context.Background(), brs, func(sb blob.SizedRef) error {
+		if inFlight.Add(1) > 1 {
+			concurrent.Store(1)
+		}
+		defer inFlight.Add(-1)
+		mu.Lock()
+		defer mu.Unlock()
 		if _, d := got[sb.Ref.String()]; d {
 			dups = true
 		}
 		got[sb.Ref.String()] = int(sb.Size)
 		return nil
 	})
+	if concurrent.Load() != 0 {
+		e.violate("client.StatBlobs(%d refs) called fn concurrently (blobserver.BlobStatter: 'calling fn in serial')", n)
+	}
 	if err != nil {
 		e.violate("client.StatBlobs(%d refs) failed: %v", n, err)
 	}
@@ -609,6 +630,13 @@ func (e *caseEnv) onePage(limitParam string, limit int, after, maxwait string) e
 	}
 	what := "GET " + pq
 	res, body := e.req("GET", pq, nil, "")
+	afterClass := "none"
+	if _, ok := e.m.blobs[after]; ok {
+		afterClass = "present-ref"
+	} else if after != "" {
+		afterClass = "absent-ref"
+	}
+	evid.R.Label(fmt.Sprintf("enum-page/limit=%s,after=%s,maxwaitsec=%s", nzs(limitParam), afterClass, nzs(maxwait)))
 	if mwn, _ := strconv.Atoi(maxwait); mwn != 0 && after != "" {
 		if res.StatusCode != 400 {
 			e.violate("%s: maxwaitsec with after must be an error (doc/protocol/blob-enumerate.md); got HTTP %d %q", what, res.StatusCode, trimQ(string(body)))
@@ -783,7 +811,8 @@ func (e *caseEnv) clientEnum() {
 func runHistories(t *testing.T, storage, index string) {
 	spec := vhttp.Spec{Storage: storage, Index: index, Auth: "userpass:" + user + ":" + pass, Share: false}
 	flag.Set("rapid.steps", strconv.Itoa(evid.Pick(40, 110)))
-	evid.Check(t, 5, 22, func(t *rapid.T) {
+	flag.Set("rapid.shrinktime", "8s") // every shrink attempt starts a server; 16 tests may fail at once
+	evid.Check(t, 6, 22, func(t *rapid.T) {
 		srv, err := vhttp.Start(spec, true)
 		if err != nil {
 			t.Fatalf("harness: %v", err)
@@ -927,3 +956,8 @@ func TestHist_blobpacked_memory(t *testing.T)  { runHistories(t, "blobpacked", "
 func TestHist_blobpacked_leveldb(t *testing.T) { runHistories(t, "blobpacked", "leveldb") }
 func TestHist_blobpacked_kv(t *testing.T)      { runHistories(t, "blobpacked", "kv") }
 func TestHist_blobpacked_sqlite(t *testing.T)  { runHistories(t, "blobpacked", "sqlite") }
+
+// runs last (source order): how many servers could not be shut down cleanly
+func TestZZLeaks(t *testing.T) {
+	evid.R.Extra("servers_left_open_because_sync_queue_did_not_drain", vhttp.Leaked.Load())
+}
